@@ -16,6 +16,7 @@ import (
 	"testing"
 	"time"
 
+	"github.com/zilliztech/milvus-cdc/core/api"
 	"github.com/zilliztech/milvus-cdc/core/log"
 	"github.com/zilliztech/milvus-cdc/core/util"
 	"github.com/zilliztech/milvus-cdc/core/verifkit/ev"
@@ -85,6 +86,7 @@ func c11Exec(cfg c11Cfg, hist []c11Op) *c11Result {
 		}
 		var err error
 		panicked := ""
+		hadEntity := op.Kind == "fail" && env.entityOf(id) != nil
 		func() {
 			defer func() {
 				if r := recover(); r != nil {
@@ -106,6 +108,8 @@ func c11Exec(cfg c11Cfg, hist []c11Op) *c11Result {
 				_, err = env.cdc.List(&request.ListRequest{})
 			case "restart":
 				env.Restart()
+			case "fail":
+				env.reportFailure(id)
 			}
 		}()
 		env.fe.Hook = nil
@@ -166,6 +170,11 @@ func c11Exec(cfg c11Cfg, hist []c11Op) *c11Result {
 					res.viol = fmt.Sprintf("transition: step %d %v (exists=%v): err=%v", step, op, exists, err)
 					return res
 				}
+			case "fail":
+				// a replication failure reported for the task (error event of the reader): it ends Paused, whatever it was
+				if exists && hadEntity {
+					ref[id] = "Paused"
+				}
 			case "restart":
 				for i := 0; i < 2; i++ {
 					tid := fmt.Sprintf("t%d", i)
@@ -207,6 +216,47 @@ func c11Exec(cfg c11Cfg, hist []c11Op) *c11Result {
 	sort.Strings(ks)
 	res.key = strings.Join(ks, ",") + "|" + env.storeDumpKeys()
 	return res
+}
+
+// entityOf: the registered replication entity of the target a task lives on (nil if the task does not exist or
+// the target has no running task)
+func (e *vEnv) entityOf(taskID string) *vEntity {
+	e.cdc.cdcTasks.RLock()
+	t := e.cdc.cdcTasks.data[taskID]
+	e.cdc.cdcTasks.RUnlock()
+	if t == nil {
+		return nil
+	}
+	uKey := getTaskUniqueIDFromInfo(t)
+	e.cdc.replicateEntityMap.RLock()
+	defer e.cdc.replicateEntityMap.RUnlock()
+	for _, en := range e.entities {
+		if en.uKey == uKey && e.cdc.replicateEntityMap.data[uKey] == en.ent {
+			return en
+		}
+	}
+	return nil
+}
+
+// reportFailure delivers a reader error event naming the task on the event channel of its target's entity (what
+// sendErrEvent of the channel manager does) and returns when the server's event goroutine has handled it: the event
+// channel of the light channel manager is unbuffered and a second, inert event (not-running task) is accepted only
+// after the goroutine is back at its select.
+func (e *vEnv) reportFailure(taskID string) {
+	en := e.entityOf(taskID)
+	if en == nil {
+		return // no reader of that target is alive: nothing can report a failure
+	}
+	send := func(ev *api.ReplicateAPIEvent) {
+		select {
+		case en.cm.eventCh <- ev:
+		case <-en.ctx.Done():
+		case <-time.After(20 * time.Second):
+			panic("verif: event goroutine does not take events")
+		}
+	}
+	send(&api.ReplicateAPIEvent{EventType: api.ReplicateError, TaskID: taskID, Error: errC11Fault})
+	send(&api.ReplicateAPIEvent{EventType: api.ReplicateCreatePartition, TaskID: "verif-no-such-task"})
 }
 
 func (e *vEnv) storeDumpKeys() string {
@@ -382,7 +432,7 @@ func c11Ops(maxFault int) []c11Op {
 			ops = append(ops, c11Op{Kind: k, Task: t})
 		}
 	}
-	ops = append(ops, c11Op{Kind: "list"}, c11Op{Kind: "restart"})
+	ops = append(ops, c11Op{Kind: "list"}, c11Op{Kind: "restart"}, c11Op{Kind: "fail", Task: 0}, c11Op{Kind: "fail", Task: 1})
 	for _, k := range []string{"create", "pause", "resume", "delete"} {
 		for f := 1; f <= maxFault; f++ {
 			ops = append(ops, c11Op{Kind: k, Task: 0, Fault: f})
